@@ -155,6 +155,8 @@ def gen_params(rng, enc, spt):
         p['gap4'] = rng.choice([0, 1, 60, 200])
         p['index_mark'] = rng.chance(0.3)
         p['gap4a'] = rng.choice([0, 40, 80]) if p['index_mark'] else 0
+        if rng.chance(0.35):
+            p['odd_phase'] = sorted(rng.sample(range(spt), rng.weighted([(3, 1), (2, 3), (1, spt)])))
     return p
 
 
@@ -248,6 +250,10 @@ def encode_track(enc, cyl, head, sectors, params=None, size_code=1):
         w.mark('idcrc', rec, s)
         s = len(w.cells)
         w.fill(0x4E, p['gap2'])
+        if rec in (p.get('odd_phase') or ()):
+            # a sector rewritten in place: the drive's write splice leaves its data field a whole number of raw
+            # cells, but not of bit cells, after the ID field - here one extra (legal) zero cell inside the gap
+            w.cells.append(0)
         w.fill(0x00, p['sync'])
         w.a1()
         w.a1()
